@@ -219,25 +219,31 @@ def _guards(body):
 
 
 def _class_facts(cls):
-    """How a class builds `.adjoint` and `.derivative` (checked as text of the AST)."""
+    """How a class builds `.adjoint` and `.derivative`, and the statement of `_call` that
+    calls finite_diff (checked as text of the AST)."""
     facts = {}
     for node in cls.body:
         if isinstance(node, ast.FunctionDef) and node.name in ('adjoint', 'derivative'):
             body = _strip_doc(node.body)
             facts[node.name] = [_u(s) for s in body]
+        if isinstance(node, ast.FunctionDef) and node.name == '_call':
+            facts['_call'] = [_u(s) for s in _strip_doc(node.body) if 'finite_diff(' in _u(s)]
     return facts
 
 
 WANT_CLASS = {
     'PartialDerivative': {
+        '_call': ['with writable_array(out) as out_arr:\n    finite_diff(x.asarray(), axis=self.axis, dx=self.dx, method=self.method, pad_mode=self.pad_mode, pad_const=self.pad_const, out=out_arr)'],
         'adjoint': ["if not self.is_linear:\n    raise ValueError('operator with nonzero pad_const ({}) is not linear and has no adjoint'.format(self.pad_const))",
                     'return -PartialDerivative(self.range, self.axis, self.domain, _ADJ_METHOD[self.method], _ADJ_PADDING[self.pad_mode], self.pad_const)'],
         'derivative': ["if self.pad_mode == 'constant' and self.pad_const != 0:\n    return PartialDerivative(self.domain, self.axis, self.range, self.method, self.pad_mode, 0)\nelse:\n    return self"]},
     'Gradient': {
+        '_call': ['for axis in range(ndim):\n    with writable_array(out[axis]) as out_arr:\n        finite_diff(x_arr, axis=axis, dx=dx[axis], method=self.method, pad_mode=self.pad_mode, pad_const=self.pad_const, out=out_arr)'],
         'adjoint': ["if not self.is_linear:\n    raise ValueError('operator with nonzero pad_const ({}) is not linear and has no adjoint'.format(self.pad_const))",
                     'return -Divergence(domain=self.range, range=self.domain, method=_ADJ_METHOD[self.method], pad_mode=_ADJ_PADDING[self.pad_mode], pad_const=self.pad_const)'],
         'derivative': ["if self.pad_mode == 'constant' and self.pad_const != 0:\n    return Gradient(self.domain, self.range, self.method, pad_mode=self.pad_mode, pad_const=0)\nelse:\n    return self"]},
     'Divergence': {
+        '_call': ['with writable_array(out) as out_arr:\n    for axis in range(ndim):\n        finite_diff(x[axis], axis=axis, dx=dx[axis], method=self.method, pad_mode=self.pad_mode, pad_const=self.pad_const, out=tmp)\n        if axis == 0:\n            out_arr[:] = tmp\n        else:\n            out_arr += tmp'],
         'adjoint': ["if not self.is_linear:\n    raise ValueError('operator with nonzero pad_const ({}) is not linear and has no adjoint'.format(self.pad_const))",
                     'return -Gradient(self.range, self.domain, method=_ADJ_METHOD[self.method], pad_mode=_ADJ_PADDING[self.pad_mode])'],
         'derivative': ["if self.pad_mode == 'constant' and self.pad_const != 0:\n    return Divergence(self.domain, self.range, self.method, pad_mode=self.pad_mode, pad_const=0)\nelse:\n    return self"]},
@@ -245,6 +251,40 @@ WANT_CLASS = {
         'adjoint': ['return Laplacian(self.range, self.domain, pad_mode=self.pad_mode, pad_const=0)'],
         'derivative': ["if self.pad_mode == 'constant' and self.pad_const != 0:\n    return Laplacian(self.domain, self.range, pad_mode=self.pad_mode, pad_const=0)\nelse:\n    return self"]},
 }
+
+
+def _laplacian_rejected(cls):
+    """pad modes Laplacian.__init__ refuses, and the two finite_diff calls of Laplacian._call"""
+    init = [n for n in cls.body if isinstance(n, ast.FunctionDef) and n.name == '__init__']
+    call = [n for n in cls.body if isinstance(n, ast.FunctionDef) and n.name == '_call']
+    if len(init) != 1 or len(call) != 1:
+        raise ExtractionError('Laplacian.__init__/_call not found')
+    rej = None
+    for st in ast.walk(init[0]):
+        if isinstance(st, ast.If) and isinstance(st.test, ast.Compare) and \
+                _u(st.test.left) == 'pad_mode' and len(st.test.ops) == 1 and \
+                isinstance(st.test.ops[0], ast.In):
+            if rej is not None or not _u(st.body[0]).startswith('raise ValueError('):
+                raise ExtractionError('Laplacian.__init__: unexpected pad_mode membership test')
+            rej = list(ast.literal_eval(st.test.comparators[0]))
+    if rej is None:
+        rej = []
+    for p in rej:
+        if p not in PADS:
+            raise ExtractionError('Laplacian rejects unknown pad mode ' + repr(p))
+    loop = [st for st in ast.walk(call[0]) if isinstance(st, ast.For)]
+    if len(loop) != 1:
+        raise ExtractionError('Laplacian._call: expected one loop over the axes')
+    got = [_u(s) for s in loop[0].body]
+    want = ["finite_diff(x_arr, axis=axis, dx=dx[axis] ** 2, method='forward', "
+            "pad_mode=self.pad_mode, pad_const=self.pad_const, out=tmp)",
+            'out_arr += tmp',
+            "finite_diff(x_arr, axis=axis, dx=dx[axis] ** 2, method='backward', "
+            "pad_mode=self.pad_mode, pad_const=self.pad_const, out=tmp)",
+            'out_arr -= tmp']
+    if got != want:
+        raise ExtractionError('Laplacian._call loop body changed: ' + repr(got))
+    return rej
 
 
 def extract_data(repo=None):
@@ -350,6 +390,7 @@ def extract_data(repo=None):
             if got.get(k) != v:
                 raise ExtractionError('{}.{} changed: {!r}'.format(name, k, got.get(k)))
         cls_facts[name] = got
+    lap_rejected = _laplacian_rejected(classes['Laplacian'])
     dens = [q.denominator for b in bands.values() for q in b.values()]
     for r0, rn, accs in leaves.values():
         dens += [q.denominator for q in r0.values()] + [q.denominator for q in rn.values()]
@@ -357,7 +398,7 @@ def extract_data(repo=None):
             dens += [q.denominator for q in e.values()]
     den = lcm(2, *dens)
     return dict(methods=methods, pads=pads, adj_m=adj_m, adj_p=adj_p, guards=guards, bands=bands,
-                leaves=leaves, den=den)
+                leaves=leaves, den=den, lap_rejected=lap_rejected)
 
 
 def _terms(e, den):
@@ -397,6 +438,9 @@ def render(d):
           'def guards : List (Nat × Option Pad) := [{}]'.format(', '.join(
               '({}, {})'.format(k, 'none' if p is None else 'some .' + PADS[p])
               for k, p in d['guards'])),
+          '/-- pad modes `Laplacian.__init__` refuses -/',
+          'def lapRejected : List Pad := [{}]'.format(', '.join(
+              '.' + PADS[p] for p in d['lap_rejected'])),
           '/-- one leaf per (method, pad_mode): interior band and boundary statements, program order,',
           'coefficients in units of 1/den -/',
           'def tbl : Method → Pad → Table']
